@@ -11,33 +11,33 @@ import common as C
 SPEC = {
     "C01": dict(workloads=[("c01", False, 0.6, ["--maxdesc", "255"]), ("mixed", False, 0.3, ["--maxdesc", "255"]),
                            ("c01", False, 0.1, ["--maxdesc", "255", "--maxpts", "120", "--maxch", "60", "--maxsub", "20", "--maxops", "16"])],   # larger shapes
-                quick=480, thorough=6000, maxops=(36, 60),
+                quick=480, thorough=30000, maxops=(36, 60),
                 relevant=("save", "load"), need={"c01_roundtrips": 300},
                 rule="distinct (operation,outcome) sequences of histories that ended in at least one judged save->load round trip"),
-    "C05": dict(workloads=[("mixed", False, 0.75, []), ("mixed", False, 0.25, ["--start", "@CORPUS@", "--maxops", "18"])], quick=640, thorough=10000, maxops=(40, 60),
+    "C05": dict(workloads=[("mixed", False, 0.75, []), ("mixed", False, 0.25, ["--start", "@CORPUS@", "--maxops", "18"])], quick=640, thorough=50000, maxops=(40, 60),
                 relevant=("frame_", "declare_", "point_column", "channel_column", "set_", "add_param", "resubmit", "continue_on_loaded"),
                 need={"c05_checked": 5000},
                 rule="distinct (operation,outcome) sequences of disciplined histories with >= 1 shape-changing call; the three views are compared after every successful call"),
-    "C06": dict(workloads=[("c06", False, 1.0, [])], quick=520, thorough=8000, maxops=(40, 60),
+    "C06": dict(workloads=[("c06", False, 1.0, [])], quick=520, thorough=40000, maxops=(40, 60),
                 relevant=("frame_", "resubmit", "point_column", "channel_column", "declare_"),
                 need={"c06_frame_checked": 2000, "c06_column_checked": 200},
                 rule="distinct sequences containing >= 1 accepted frame or column call whose before/after snapshots were related"),
-    "C07": dict(workloads=[("c07", False, 1.0, [])], quick=640, thorough=12000, maxops=(40, 60),
+    "C07": dict(workloads=[("c07", False, 1.0, [])], quick=640, thorough=60000, maxops=(40, 60),
                 relevant=("frame_", "resubmit", "point_column", "channel_column", "declare_"),
                 need={"c07_frame_defective": 400, "c07_frame_valid": 1000, "c07_column_calls": 800},
                 rule="distinct sequences containing >= 1 frame/column call judged against the documented precondition predicate"),
-    "C08": dict(workloads=[("c08", False, 1.0, [])], quick=480, thorough=6000, maxops=(40, 60),
+    "C08": dict(workloads=[("c08", False, 1.0, [])], quick=480, thorough=30000, maxops=(40, 60),
                 relevant=("mutate_caller_frame", "resubmit", "copy_out"),
                 need={"c08_mutations": 500, "op:resubmit_append": 300},
                 rule="distinct sequences in which a caller-side frame was mutated after hand-over or handed over more than once"),
-    "C09": dict(workloads=[("c09", False, 1.0, ["--maxdesc", "255"])], quick=420, thorough=8000, maxops=(44, 60),
+    "C09": dict(workloads=[("c09", False, 1.0, ["--maxdesc", "255"])], quick=420, thorough=40000, maxops=(44, 70),
                 relevant=("add_param", "param_set_dims", "lock_group", "unlock_group", "set_"),
                 need={"c09_param_checked": 2000, "c09_set_inconsistent": 300, "c09_set_consistent": 300, "c09_lock_checked": 500},
                 rule="distinct sequences containing >= 1 parameter/group edit judged by the tree-diff or set() predicate monitors"),
-    "C10": dict(workloads=[("c10", False, 0.6, []), ("c10", True, 0.4, [])], quick=560, thorough=8000, maxops=(40, 60),
+    "C10": dict(workloads=[("c10", False, 0.6, []), ("c10", True, 0.4, [])], quick=560, thorough=40000, maxops=(40, 60),
                 relevant=("throw:",), need={"refused": 200},
                 rule="distinct sequences containing >= 1 refused public mutating call (snapshot equality judged around it)"),
-    "C11": dict(workloads=[("c11", False, 0.8, ["--lookups", "14"]), ("c11", False, 0.2, ["--lookups", "14", "--start", "@CORPUS@", "--maxops", "12"])], quick=420, thorough=8000, maxops=(40, 60),
+    "C11": dict(workloads=[("c11", False, 0.8, ["--lookups", "14"]), ("c11", False, 0.2, ["--lookups", "14", "--start", "@CORPUS@", "--maxops", "12"])], quick=420, thorough=40000, maxops=(40, 60),
                 relevant=("lookups", "declare_"), need={"c11_accesses": 20000},
                 rule="distinct sequences containing >= 1 batch of look-ups (each batch = 14 accesses over all container kinds) compared with the snapshot"),
 }
